@@ -11,6 +11,8 @@ EQUIV = {
     "S09-running-flag-not-reset": "no listed property speaks about is_running in a non-execution session",
     "X01-cycle-check-skips-self": "equivalent: a self-loop is reported one iteration later",
     "A14-arb-acts-when-component-stopped": "outside the statement (C20 says nothing about stopped markets); observed, not judged",
+    "Q17-both-market-branch-strict": "not a violation: the engine merely matches more market-order pairs (outside C03's premise)",
+    "Q19-session-end-not-flushed": "not a violation of C10 as stated: every record is still processed no later than the next session boundary",
     "m04-no-break-on-noncrossing": "C03's post-condition is unaffected; the break is a C01 violation (caught there)",
 }
 
